@@ -22,7 +22,7 @@ func init() {
 			"Non-trivial+distinct = hash of bitmaps with at least two 1-bits and one 0.",
 		Assumptions: []string{"only 0 <= i < n (outside, the functions panic by design)"},
 		Flavours:    releaseAnd386,
-		Required: []string{"i=n-1", "i%32=31", "i%32=0", "i%32=1", "answer-word!=checkpoint-word", "next/same-word", "next/later-word", "next/skips-empty-words", "next/absent",
+		Required: []string{"arguments-in-read-only-memory", "i=n-1", "i%32=31", "i%32=0", "i%32=1", "answer-word!=checkpoint-word", "next/same-word", "next/later-word", "next/skips-empty-words", "next/absent",
 			"lane=0", "lane=1", "lane=2", "lane=3", "answer-in-high-byte-of-lane", "answer-in-low-byte-of-lane", "bitmap/no-ones", "ones>=65536", "words>=65536", "gap>=2^31/31-bits"},
 		Families: func(c *mon.Config) []mon.Family {
 			return []mon.Family{
@@ -215,6 +215,44 @@ func c02Check(w *mon.W, words []uint64, pos *[]int32, cov *c02Cov) bool {
 	w.Eval(int64(2 * n))
 	if n >= 2 && n < nw*64 {
 		w.Distinct(gen.HashWords(words))
+	}
+	// the bitmap and its indexes in memory that cannot be written (ro.go): same indexes, same answers, no fault
+	if gen.HashWords(words)&7 == 0 {
+		roReset(w)
+		rw, rs, rs2, rr := roWords(w, words), roI32(w, sidx), roI32(w, sidx2), roI32(w, ridx)
+		if release, ok := roSeal(w); ok {
+			w.Op = "IndexSelect32(read-only bitmap)"
+			a := bitmap.IndexSelect32(rw)
+			w.Op = "IndexSelect32R64(read-only bitmap)"
+			b, c := bitmap.IndexSelect32R64(rw)
+			if !eqI32(a, sidx) || !eqI32(b, sidx2) || !eqI32(c, ridx) {
+				release()
+				w.Fail("Index/differs-on-read-only-bitmap", d(mon.D{}))
+				return false
+			}
+			step := 1
+			if n > 512 {
+				step = n/512 | 1
+			}
+			for i := 0; i < n; i += step {
+				eb := end
+				if i+1 < n {
+					eb = P[i+1]
+				}
+				w.Op, w.A = "Select32(read-only bitmap and index)", int64(i)
+				a1, b1 := bitmap.Select32(rw, rs, int32(i))
+				w.Op = "Select32R64(read-only bitmap and indexes)"
+				a2, b2 := bitmap.Select32R64(rw, rs2, rr, int32(i))
+				if a1 != P[i] || a2 != P[i] || b1 != eb || b2 != eb {
+					release()
+					w.Fail("Select/differs-on-read-only-arguments", d(mon.D{"i": i, "got": []int32{a1, b1}, "got_r64": []int32{a2, b2}, "expected": []int32{P[i], eb}}))
+					return false
+				}
+			}
+			release()
+			w.Eval(2 + 2*int64((n+step-1)/step))
+			w.Bucket("arguments-in-read-only-memory")
+		}
 	}
 	// in-place update of the bitmap, then the index builders again (see C01)
 	if nw > 0 {
